@@ -133,10 +133,11 @@ class Gen:
 
     @staticmethod
     def roots(sc):
+        # like State::RootNodes(): every output that no statement uses as an input (validations do not count)
         used = set()
         for s in sc["stmts"]:
             used.update(s["ins"] + s["iins"] + s["oins"])
-        return [s["outs"][0] for s in sc["stmts"] if not any(o in used for o in all_outs(s))]
+        return [o for s in sc["stmts"] for o in all_outs(s) if o not in used]
 
     @staticmethod
     def all_targets(sc):
